@@ -285,6 +285,6 @@ MANIFEST = {
                   'text and have finite log-target. NUTS: inductive argument discharged by the solver on the real code (base case, '
                   'step case over invariant-satisfying sub-tree results, one loop iteration), so the support claim holds for every '
                   'tree depth; row counts and use of only the seeded generator are checked on the same runs.',
-    'level_note': 'dim <= 2, <= 3 Metropolis samples, warm-up <= 1; NUTS invariant "n_sub>0 => proposal valid" is mine and is what '
+    'level_note': 'dim <= 2, <= 3 Metropolis samples, warm-up <= 1; start point symbolic reals, or an int64 / float32 array of solver-chosen exactly representable values (decided by the concrete twin where numpy casts); NUTS invariant "n_sub>0 => proposal valid" is mine and is what '
                   'the three obligations establish; step size given; moments of the samples are outside (statistical). z3 trusted.',
 }
